@@ -122,6 +122,10 @@ def generate(rng, tier):
                 "extra_suffix": rng.choice([None, None, ".pyw", ".pyi"])}
     if rng.random() < 0.14:
         return gen_pkg(rng)
+    if rng.random() < 0.05:
+        # a script reached through a symbolic link, with its macro library beside the LINK; run the way `hy FILE` runs
+        # it (set_path + run_path), first from source, then from its cached bytecode
+        return {"kind": "link", "runs": rng.choice([2, 3]), "val": rng.randrange(1000), "local": rng.random() < 0.5}
     libs = [gen_lib(rng, i) for i in range(rng.choice([1, 1, 2]))]
     clients = [gen_client(rng, j, libs) for j in range(rng.choice([1, 1, 2]))]
     mods = ["lib%d" % i for i in range(len(libs))] + ["cli%d" % j for j in range(len(clients))]
@@ -547,6 +551,8 @@ def execute(desc):
         return execute_ext(desc)
     if desc["kind"] == "pkg":
         return execute_pkg(desc)
+    if desc["kind"] == "link":
+        return execute_link(desc)
     from sim import kernel
     hy = _S["hy"]
     _S["n"] += 1
@@ -820,6 +826,80 @@ def subprocess_import(W, modname, keys):
     return json.loads(p.stdout.strip().splitlines()[-1])
 
 
+# ------------------------------------------------------------------ symlinked script
+
+
+def execute_link(desc):
+    from sim import kernel
+    hy = _S["hy"]
+    import hy.cmdline
+    from hy.importer import runhy
+    _S["n"] += 1
+    tag = "l%dx%d_" % (os.getpid() % 100000, _S["n"])
+    W = World(tag)
+    viols, events = [], []
+    probes = {"symlinked_script_runs": 0, "symlinked_script_runs_from_cache": 0}
+    val = desc["val"]
+    try:
+        lib = tag + "lnlib"
+        W.write(lib, f'(defmacro lm [x] `[~x "lnlib" {val}])\n(defn lf [x] (+ x {val}))\n')
+        real_dir = os.path.join(W.root, "real")
+        os.makedirs(real_dir, exist_ok=True)
+        real = os.path.join(real_dir, tag + "prog.hy")
+        body = f"(require {lib} [lm])\n(import {lib} [lf])\n(setv v1 (lm 1))\n(setv v2 (lf 2))\n(setv v3 (hy.eval '(lm 3)))\n"
+        if desc.get("local"):
+            body += f"(defn g [] (require {lib} [lm :as lm2]) (lm2 4))\n(setv v4 (g))\n"
+        with open(real, "w") as f:
+            f.write(body)
+        W.clock += 2
+        os.utime(real, (W.clock, W.clock))
+        link = os.path.join(W.root, tag + "prog_link.hy")
+        os.symlink(real, link)
+        W.files[tag + "prog_link"] = link
+        W.names.add(tag + "prog_link")
+        want = {"v1": [1, "lnlib", val], "v2": 2 + val, "v3": [3, "lnlib", val]}
+        if desc.get("local"):
+            want["v4"] = [4, "lnlib", val]
+        for r in range(desc["runs"]):
+            W.restart()
+            saved_path, saved_argv = list(sys.path), list(sys.argv)
+            err = io.StringIO()
+            try:
+                sys.path.insert(0, "")                 # what hy_main does first
+                hy.cmdline.set_path(link)              # what `hy FILE` does next
+                with contextlib.redirect_stderr(err), contextlib.redirect_stdout(io.StringIO()):
+                    ns = runhy.run_path(link, run_name="__main__")
+                got = {k: ns.get(k, "<missing>") for k in want}
+                outcome = "ok"
+            except BaseException as e:
+                got, outcome = {}, "%s: %s" % (type(e).__name__, str(e)[:120])
+            finally:
+                sys.path[:] = saved_path
+                sys.argv[:] = saved_argv
+            from_src = ("Compiling " + link) in err.getvalue() or ("Compiling " + real) in err.getvalue()
+            probes["symlinked_script_runs"] += 1
+            if not from_src:
+                probes["symlinked_script_runs_from_cache"] += 1
+            path = "source" if from_src else "cache"
+            events.append([r, path, outcome if outcome == "ok" else outcome.split(":")[0]])
+            if outcome != "ok":
+                viols.append({"clause": "import_failed", "sig": "symlinked_script:" + path,
+                              "detail": {"run": r, "path": path, "error": outcome, "stderr": err.getvalue()[-300:]}})
+                break
+            if got != want:
+                viols.append({"clause": "module_values", "sig": "symlinked_script:" + path,
+                              "detail": {"run": r, "path": path, "got": repr(got)[:300], "expected": repr(want)[:300]}})
+            if r > 0 and from_src:
+                viols.append({"clause": "load_path", "sig": "symlinked_script:valid_pyc_not_used", "detail": {"run": r}})
+    finally:
+        W.close()
+    uniq = {}
+    for v in viols:
+        uniq.setdefault((v["clause"], v["sig"]), v)
+    return {"events": events, "violations": list(uniq.values())[:5], "faults": {}, "probes": probes,
+            "sigs": [kernel.digest(["link", desc["runs"], desc.get("local")])], "steps": desc["runs"]}
+
+
 # ------------------------------------------------------------------ extension rule
 
 
@@ -925,6 +1005,12 @@ def execute_ext(desc):
 
 
 def shrink(desc):
+    if desc["kind"] == "link":
+        if desc.get("local"):
+            yield dict(desc, local=False)
+        if desc["runs"] > 2:
+            yield dict(desc, runs=2)
+        return
     if desc["kind"] == "pkg":
         ops = desc["ops"]
         for i in range(len(ops)):
